@@ -542,6 +542,176 @@ def gen_instchecks(ctx):
   return '\n'.join(out)
 
 
+import hashlib
+
+
+class _Abs(ast.NodeTransformer):
+
+  def __init__(self):
+    self.consts = []
+
+  def visit_Constant(self, n):
+    if isinstance(n.value, (int, float)) and not isinstance(n.value, bool):
+      self.consts.append(n.value)
+      return ast.copy_location(ast.Constant(value='#'), n)
+    return n
+
+
+def fn_shape(fn):
+  """(sha1 of the body with numeric literals abstracted, the literals)."""
+  body = [st for st in fn.body if not (
+      isinstance(st, ast.Expr) and isinstance(st.value, ast.Constant) and
+      isinstance(st.value.value, str))]
+  a = _Abs()
+  body = [a.visit(st) for st in body]
+  d = ast.dump(ast.Module(body=body, type_ignores=[]))
+  return hashlib.sha1(d.encode()).hexdigest()[:12], a.consts
+
+
+def gen_matdesc(ctx):
+  """Gen/MatDesc.v: what each registered materialize function does, as a
+  descriptor consumed by Model/Plan.v.  The simple wrappers are parsed
+  (keywords of the materialize_standard_op call); the five composite ones
+  must have exactly the recognised shape (hash of the body with numeric
+  literals abstracted) and contribute their literals."""
+  out = [HEADER, 'From VF Require Import Gen.Enums Gen.Registry.\n']
+  out.append("""Inductive mat_desc :=
+| MStd (constraint : Z) (ign_in ign_out : list Z)   (* 0 none, 1 same-as-input, 2 same-as-output *)
+| MFcConv (ii wi bi : Z)
+| MConvT (shape_i wi ii bi min_params : Z)
+| MFixed (kind : Z)                                 (* index into fixed_ranges *)
+| MCast (ii wi bi : Z).
+(* fixed output range entry: activation bits, scale = num/den (both exact
+   binary64 values in the source), zero point, symmetric flag *)
+Record fixed_range := { fr_bits : Z; fr_num : Z; fr_den : Z; fr_zp : Z; fr_sym : bool }.
+""")
+  nmm = 'algorithms/uniform_quantize/naive_min_max_quantize.py'
+  fcp = 'algorithms/nonlinear_quantize/float_casting.py'
+  path, tree = parse(ctx.root, nmm)
+  fpath, ftree = parse(ctx.root, fcp)
+  cons_codes = {'NO_CONSTRAIN': 0, 'SAME_AS_INPUT_SCALE': 1,
+                'SAME_AS_OUTPUT_SCALE': 2}
+
+  def intlist(node, p):
+    if not (isinstance(node, ast.List) and all(
+        isinstance(e, ast.Constant) and isinstance(e.value, int)
+        for e in node.elts)):
+      fail(p, node, 'ignore list is not a list of int literals')
+    return '[' + '; '.join(str(e.value) for e in node.elts) + ']'
+
+  def std_desc(fn):
+    body = [st for st in fn.body if not (
+        isinstance(st, ast.Expr) and isinstance(st.value, ast.Constant))]
+    if not (len(body) == 1 and isinstance(body[0], ast.Return) and
+            isinstance(body[0].value, ast.Call) and
+            ast.unparse(body[0].value.func) == 'utils.materialize_standard_op'):
+      return None
+    call = body[0].value
+    if [ast.unparse(a) for a in call.args] != ['op_info', 'graph_info',
+                                               'tensor_name_to_qsv']:
+      fail(path, fn, 'unexpected positional arguments')
+    cons, ii, io = 0, '[]', '[]'
+    for kw in call.keywords:
+      if kw.arg == 'constraint':
+        name = ast.unparse(kw.value).split('.')[-1]
+        if name not in cons_codes:
+          fail(path, kw, f'unknown constraint {name}')
+        cons = cons_codes[name]
+      elif kw.arg == 'inputs_to_ignore':
+        ii = intlist(kw.value, path)
+      elif kw.arg == 'outputs_to_ignore':
+        io = intlist(kw.value, path)
+      else:
+        fail(path, kw, f'unexpected keyword {kw.arg}')
+    return f'MStd {cons} {ii} {io}'
+
+  fixed = []
+  descs = {}
+  for full in ctx.matfuncs:
+    mod, name = full.split('.')
+    if mod == 'naive_min_max_quantize':
+      fn = find_func(path, tree, name)
+      d = std_desc(fn)
+      if d is None:
+        sha, consts = fn_shape(fn)
+        if name == 'materialize_fc_conv':
+          helper = find_func(path, tree, '_materialize_bias_for_conv_ops')
+          hsha, hconsts = fn_shape(helper)
+          if (sha, hsha, hconsts) != ('27d47d7af143', 'fc3ac9b38ad1', [0, 0]):
+            fail(path, fn, f'materialize_fc_conv/_materialize_bias_for_conv_ops '
+                 f'changed shape ({sha}, {hsha}, {hconsts})')
+          dv = [x.value for x in fn.args.defaults]
+          if len(dv) != 3 or not all(isinstance(v, int) for v in dv):
+            fail(path, fn, 'operand index defaults changed')
+          d = f'MFcConv {dv[0]} {dv[1]} {dv[2]}'
+        elif name == 'materialize_conv2d_transpose':
+          if sha != '21d413ac91df' or len(consts) != 5:
+            fail(path, fn, f'materialize_conv2d_transpose changed shape ({sha})')
+          # ignored_shape_index, weight_index, input_index, bias_index, min len
+          d = 'MConvT ' + ' '.join(str(int(c)) for c in consts)
+        elif name == 'materialize_softmax_and_logistic':
+          if sha != '4bb250039f18' or len(consts) != 10:
+            fail(path, fn, f'materialize_softmax_and_logistic changed shape ({sha})')
+          k8, k16, b8, n8, d8, z8, b16, n16, d16, z16 = consts
+          if (k8, k16) != (b8, b16):
+            fail(path, fn, 'dict keys differ from num_bits')
+          kind = len(fixed)
+          # 8-bit entry: zero_point=np.array(-128): literal 128 under USub;
+          # symmetric=False written; 16-bit entry uses the dataclass default
+          fixed.append([(b8, n8, d8, -z8, False), (b16, n16, d16, z16, True)])
+          d = f'MFixed {kind}'
+        elif name == 'materialize_tanh':
+          if sha != '2a6bdd1fbbee' or consts != [8, 16, 1.0, 1, 1, 0, 16]:
+            fail(path, fn, f'materialize_tanh changed shape ({sha}, {consts})')
+          kind = len(fixed)
+          # scale = 1.0 / (1 << (bits - 1)); zp 0; symmetric = (bits == 16)
+          fixed.append([(b, 1.0, 1 << (b - 1), 0, b == 16) for b in (8, 16)])
+          d = f'MFixed {kind}'
+        else:
+          fail(path, fn, f'unrecognised materializer shape {name} ({sha})')
+      descs[full] = d
+    elif mod == 'float_casting':
+      fn = find_func(fpath, ftree, name)
+      sha, consts = fn_shape(fn)
+      helper = find_func(fpath, ftree, '_config_no_quantize_tensor')
+      if fn_shape(helper)[0] != 'fe66fa0eb7d6':
+        fail(fpath, helper, '_config_no_quantize_tensor changed shape')
+      if name == 'materialize_fc_conv':
+        if (sha, consts) != ('48ac573eade4', [16]):
+          fail(fpath, fn, f'float_casting.materialize_fc_conv changed ({sha})')
+        descs[full] = 'MCast 0 1 2'
+      elif name == 'materialize_embedding_lookup':
+        if sha != 'f94b7da0e582':
+          fail(fpath, fn, 'float_casting.materialize_embedding_lookup changed')
+        descs[full] = 'MCast 0 1 2'
+      elif name == 'materialize_conv2d_transpose':
+        if (sha, consts) != ('b65dbfe7c7c9', [2, 1, 3, 0, 16]):
+          fail(fpath, fn, f'float_casting.materialize_conv2d_transpose changed ({sha}, {consts})')
+        descs[full] = f'MCast {consts[0]} {consts[1]} {consts[2]}'
+      else:
+        fail(fpath, fn, f'unrecognised float_casting materializer {name}')
+    else:
+      raise Py2VError(f'unknown materializer module {mod}')
+  out.append('Definition mat_desc_of (f : matfunc) : mat_desc :=\n  match f with')
+  for full in ctx.matfuncs:
+    out.append(f'  | Mat_{full.replace(".", "_")} => {descs[full]}')
+  out.append('  end.')
+
+  def zr(x):
+    if float(x) != int(x):
+      raise Py2VError(f'non-integral literal {x} in a fixed range')
+    x = int(x)
+    return f'({x})' if x < 0 else str(x)
+  out.append('Definition fixed_ranges : list (list fixed_range) := [')
+  out.append(';\n'.join(
+      '  [' + '; '.join(
+          f'{{| fr_bits := {zr(b)}; fr_num := {zr(n)}; fr_den := {zr(dn)}; '
+          f'fr_zp := {zr(z)}; fr_sym := {coq_bool(sy)} |}}'
+          for (b, n, dn, z, sy) in kind) + ']' for kind in fixed))
+  out.append('].')
+  return '\n'.join(out)
+
+
 def gen_recipes(ctx):
   """Shipped recipe files as jrule-like raw data (Gen/Recipes.v)."""
   out = [HEADER, 'From VF Require Import Gen.Enums Gen.Configs.\n']
@@ -623,4 +793,5 @@ def generate(ctx):
   files['Checks.v'] = gen_checks(ctx)
   files['Recipes.v'] = gen_recipes(ctx)
   files['InstChecks.v'] = gen_instchecks(ctx)
+  files['MatDesc.v'] = gen_matdesc(ctx)
   return files
